@@ -202,7 +202,7 @@ def operator_entries(rng, dtypes, heavy=True):
 
     ents = []
 
-    def L(name, mk, dt, has_jit=True, lin=True, out_complex=False, rtol=None):
+    def L(name, mk, dt, has_jit=True, lin=True, out_complex=False, rtol=None, sibling=None):
         probe = mk(None)
         x = _arr(rng, probe.input_shape, probe.input_dtype)
         calls = [("eval", lambda o: (lambda a: o(a)), (x,))]
@@ -212,12 +212,16 @@ def operator_entries(rng, dtypes, heavy=True):
             calls.append(("adj", lambda o: (lambda a: o.adj(a)), (yv,)))
             calls.append(("gram", lambda o: (lambda a: o.gram(a)), (x,)))
 
-        def hist(o, x=x, lin=lin):
+        def hist(o, x=x, lin=lin, sibling=sibling):
             # operators have a fixed input shape: the history stream repeats calls with other values,
             # interleaves adjoint/gram evaluations, and derives other operators from this one.
             # A history call that is itself rejected (dtype bookkeeping of derived operators is the
             # subject of C05/C12) must not hide the probe call: it is skipped.
             steps = [lambda: o(2 * x + 1)]
+            if sibling is not None:
+                # ANOTHER operator of the same class, shapes and dtype but a different map, used before the probe
+                sb = sibling()
+                steps += [lambda: sb(x), lambda: sb.adj(sb(x)), lambda: sb.gram(x)]
             if lin:
                 steps += [lambda: o.gram(x * 0.5), lambda: (2.0 * o)(x), lambda: (o.T, o.H), lambda: (o.H @ o)(x), lambda: o.adj(o(x))]
             for st in steps:
@@ -257,7 +261,9 @@ def operator_entries(rng, dtypes, heavy=True):
         L("2A+B", lambda jit: 2.0 * linop.Diagonal(d) + linop.Identity(shp, input_dtype=dt), dt, has_jit=False)
         L("A.T", lambda jit: linop.MatrixOperator(M).T, dt, has_jit=False)
         L("A.H", lambda jit: linop.CircularConvolve(h, shp, input_dtype=dt, **kw(jit)).H, dt, has_jit=True, rtol=max(_rtol(dt), 1e-8))
-        L("LinearOperator(eval_fn)", lambda jit: linop.LinearOperator(input_shape=shp, eval_fn=lambda a: a[::-1] * 2.0, input_dtype=dt, **kw(jit)), dt)
+        L("LinearOperator(eval_fn)", lambda jit: linop.LinearOperator(input_shape=shp, eval_fn=lambda a: a[::-1] * 2.0, input_dtype=dt, **kw(jit)), dt,
+          sibling=lambda: linop.LinearOperator(input_shape=shp, eval_fn=lambda a: 3.0 * a + a[:, ::-1], input_dtype=dt))
+        L("Diagonal(sibling)", lambda jit: linop.Diagonal(d, **kw(jit)), dt, sibling=lambda: linop.Diagonal(2.0 * d + 1.0))
         L("operator.Abs", lambda jit: operator.Abs(shp, input_dtype=dt, **kw(jit)), dt, lin=False)
         L("Operator(eval_fn)", lambda jit: operator.Operator(input_shape=shp, eval_fn=lambda a: a * a + 1.0, input_dtype=dt, **kw(jit)), dt, lin=False)
         L("Operator∘LinOp", lambda jit: operator.Abs((3,), input_dtype=dt)(linop.MatrixOperator(M)), dt, has_jit=False, lin=False)
@@ -437,7 +443,9 @@ def snapshot(obj, depth=4, _seen=None):
 
     if _seen is None:
         _seen = set()
-    if obj is None or isinstance(obj, (bool, int, float, complex, str, bytes)):
+    if isinstance(obj, (float, complex)) and not isinstance(obj, bool):
+        return ("num", repr(obj))  # NaN does not compare equal to itself
+    if obj is None or isinstance(obj, (bool, int, str, bytes)):
         return obj
     if isinstance(obj, (np.ndarray, jax.Array, np.generic)):
         a = np.asarray(obj)
